@@ -5,7 +5,7 @@
    subservice; source-id hi; lo], application data, CRC-16/CCITT-FALSE (bitwise definition). *)
 From Coq Require Import ZArith List Lia.
 From SP Require Import Base.Result Base.Bytes Base.Crc16 Model.SpacePacket Spec.SpacePacketSpec
-  Model.PusTc Spec.PusSpec Proofs.PusTcProofs.
+  Model.PusTc Spec.PusSpec Proofs.PusTcProofs Model.PusTcHist Proofs.PusHeaderRefusal.
 Import ListNotations.
 Open Scope Z_scope.
 
@@ -66,6 +66,20 @@ Theorem C02_new_refuses : forall service subservice apid seq source_id ack app,
   tc_new service subservice apid app seq source_id ack = Err EValue.
 Proof. exact tc_new_refuses. Qed.
 Print Assumptions C02_new_refuses.
+
+(* a primary-header field pushed out of range through the header object the telecommand hands out
+   (tc.sp_header.seq_count = 20000; no setter validates): every serialisation route -- pack(),
+   pack(recalc_crc=False), calc_crc(), to_space_packet().pack() -- refuses with ValueError, nothing is
+   encoded (C01's refusal clause seen through PusTc), and on the live object nothing changes *)
+Theorem C02_header_out_of_range_refused : forall t, ~ sph_in_range (tc_sph t) ->
+  tc_pack t = Err EValue /\ tc_pack_norecalc t = Err EValue /\ tc_calc_crc t = Err EValue /\
+  tc_to_space_packet_pack t = Err EValue /\ tc_view t = Err EValue.
+Proof. exact tc_header_out_of_range_refused. Qed.
+Print Assumptions C02_header_out_of_range_refused.
+Theorem C02_live_header_out_of_range_refused : forall t0 t o,
+  ~ sph_in_range (tc_sph t) -> tcx_serialises o -> tcx_step t0 t o = (t, Err EValue).
+Proof. exact tcx_header_out_of_range_refused. Qed.
+Print Assumptions C02_live_header_out_of_range_refused.
 
 Example C02_args_valid_inhabited : tc_args_valid 17 1 2047 16383 65535 15 [1; 2; 255].
 Proof. exact tc_valid_example. Qed.
